@@ -84,7 +84,22 @@ def gen(rng, ctx):
         for v in rng.sample(names, min(len(names), rng.randint(1, 3))):
             m[v] = rng.choice([v + "$", v + "$1", "_" + v, "__" + v + "_", v.upper() + "$x"])
         kind += "+dollar_underscore"
-    elif r < 0.5:
+    elif r < 0.42:
+        # operand names whose '_'-joins coincide (a,b_c / a_b,c) on two gates of the same family
+        preds = G.cd_preds(cd)
+        tps = G.cd_types(cd)
+        fam = {"and": 0, "nand": 0, "or": 1, "nor": 1, "xor": 2, "xnor": 2}
+        gs = [n for n in names if tps[n] in fam and len(preds[n]) >= 2]
+        pairs = [(g1, g2) for g1 in gs for g2 in gs if g1 < g2 and fam[tps[g1]] == fam[tps[g2]]]
+        if pairs:
+            g1, g2 = rng.choice(pairs)
+            f1 = [x for x in preds[g1] if "." not in x][:2]
+            f2 = [x for x in preds[g2] if "." not in x and x not in f1][:2]
+            if len(f1) == 2 and len(f2) == 2:
+                for old_, new_ in zip(f1 + f2, ["a", "b_c", "a_b", "c"]):
+                    m[old_] = new_
+                kind += "+ambiguous_joins"
+    elif r < 0.55:
         preds = G.cd_preds(cd)
         tps = G.cd_types(cd)
         wide = [n for n in names if tps[n] in G.GATESN and len(preds[n]) >= 3]
